@@ -42,9 +42,9 @@ PROPS["C05"] = {
 }
 PROPS["C19"] = {
     "technique": 'Lean 4 theorems on similarity (symmetry, range, identity) and on rename pairing + similarity and diff-report differentials',
-    "lean_modules": ["SfwModel.Props.C19", "SfwModel.Props.C09", "SfwModel.Props.C19Limits"],
+    "lean_modules": ["SfwModel.Props.C19", "SfwModel.Props.C09", "SfwModel.Props.C19Limits", "SfwModel.Props.C19Rename"],
     "suites": [{"name": "sim", "quick": 1500, "thorough": 40000}, {"name": "diffreport", "quick": 8, "thorough": 150, "timeout": 3000}],
-    "required_theorems": ["C19_threshold_matches_source", "C19_sim_symm", "C19_sim_range", "C19_sim_self", "C19_sim_eq_one_of_eq_features",
+    "required_theorems": ["C19_unique_body_rename_chosen", "C19_unique_body_rename_needs_tiebreak", "C19_threshold_matches_source", "C19_sim_symm", "C19_sim_range", "C19_sim_self", "C19_sim_eq_one_of_eq_features",
                           "C19_mapSim_symm", "C19_typeListSim_symm", "C19_pairs_injective", "C19_pairs_above_threshold",
                           "C19_rename_found"],
     "level_text": "Kernel-checked over exact rationals: TopologySimilarity is symmetric, lies in [0,1] and is exactly 1 whenever the name-free features agree (so for a renamed copy); the model is tied to topology.TopologySimilarity by a differential on generated topology pairs in both argument orders, with the same three clauses checked on the real floats.",
@@ -204,7 +204,7 @@ PROPS["C03"] = {
                           "C03_kept_literals_distinct", "C03_keepall_keeps", "C03_traversal_nodup", "C03_traversal_in_range",
                           "C03_sortedBlocks_perm", "C03_register_names_injective", "C03_block_names_injective",
                           "C03_select_order_perm", "C03_select_positions_injective", "C03_select_positions_total",
-                          "C03_recurrences_of_different_types_differ",
+                          "C03_recurrences_of_different_types_differ", "C03_keepall_keeps_every_integer",
                           "C03_sem_commutative_sound", "C03_sem_string_concat_not_commutative", "C03_sem_swap_sound",
                           "C03_sem_swap_unsound_on_floats", "C03_sem_view_same_behaviour",
                           "C03_sem_view_needs_table_ids", "C03_sem_view_needs_if_last",
